@@ -225,7 +225,7 @@ def eval_batch(case):
             try:
                 out = p.stdout.read()
                 p.stderr.read()
-                rc = p.wait(timeout=180)
+                rc = p.wait(timeout=900)
             except Exception:  # noqa: BLE001
                 p.kill()
                 rc, out = -9, b""
